@@ -478,7 +478,52 @@ pub mod rh {
     #[derive(Debug, Clone, PartialEq, Eq, Hash, Serialize, Deserialize)]
     pub struct History {
         pub replicas: u8,
+        /// true: one global virtual time (before a replica acts its clock is moved up to the newest
+        /// clock of the cluster, so no write is ever stamped behind something it has received);
+        /// false: independent clocks, skew as generated by the Advance steps
+        pub synced: bool,
         pub steps: Vec<Step>,
+    }
+
+    /// In synchronised-clock histories: move replica r's clock up to the newest clock of the cluster.
+    pub fn sync_clock(cl: &mut Cluster, r: usize) {
+        let m = cl.nodes.iter().map(|n| n.clock).max().unwrap_or(0);
+        cl.nodes[r].clock = m;
+    }
+    /// Full-mesh rounds until no step supplies changes (no automatic refresh). With `synced` the
+    /// consumer's clock is moved up to the newest clock of the cluster before every step.
+    pub async fn mesh(cl: &mut Cluster, max_rounds: usize, synced: bool) -> (bool, Vec<ReplResult>) {
+        let n = cl.nodes.len();
+        let mut seen = Vec::new();
+        for _ in 0..max_rounds {
+            let mut changed = false;
+            for from in 0..n {
+                for to in 0..n {
+                    if from == to {
+                        continue;
+                    }
+                    if synced {
+                        sync_clock(cl, to);
+                    }
+                    let r = cl.replicate(from, to).await;
+                    if r == ReplResult::Applied {
+                        changed = true;
+                    }
+                    seen.push(r);
+                }
+            }
+            if !changed {
+                return (true, seen);
+            }
+        }
+        (false, seen)
+    }
+    /// Replica whose clock a step uses.
+    pub fn acting_replica(s: &Step, n: usize) -> usize {
+        match s {
+            Step::Do { r, .. } => *r as usize % n,
+            Step::Repl { to, .. } | Step::Refresh { to, .. } => *to as usize % n,
+        }
     }
 
     /// Targets (population members) an op writes to.
@@ -627,6 +672,143 @@ pub mod rh {
             }
         }
         out
+    }
+
+
+    /// Known root cause shared by C08/C09/C19 (see known_findings.d): a write transaction's change id is
+    /// max(local clock, own previous id + 1 ns) and ignores ids received by replication, so a replica whose
+    /// clock is behind can stamp a write LOWER than the change id already on the attribute. It wins locally
+    /// and loses everywhere else.
+    pub const SIG_STALE_LOCAL: &str = "a replica keeps its own write stamped with a change id lower than one it had already received (lagging clock; received ids do not advance the local id clock)";
+
+    /// Known root cause found by C11 (see known_findings.d/C11.json), as it shows in whole-entry dumps:
+    /// an attribute of a MERGING value type (audit log such as name_history, sessions, key objects)
+    /// carries the same change id on two replicas but different content.
+    pub const SIG_STRANDED_ATTR: &str = "merged value (audit log incl. name_history, sessions, key objects) stored under the newer input's change id is never supplied onward (same change id, different content on two replicas)";
+
+    async fn merging_attrs(cl: &Cluster, dumps: &[Dump]) -> BTreeSet<String> {
+        let r = cl.nodes[0].qs.read().await.expect("read");
+        let schema = r.get_schema();
+        let mut names: BTreeSet<String> = BTreeSet::new();
+        for d in dumps {
+            for e in d.values() {
+                names.extend(e.attrs.keys().cloned());
+            }
+        }
+        names
+            .into_iter()
+            .filter(|n| {
+                schema
+                    .get_attributes()
+                    .get(&Attribute::from(n.as_str()))
+                    .map(|a| matches!(format!("{:?}", a.syntax).as_str(), "AuditLogString" | "Session" | "Oauth2Session" | "KeyInternal"))
+                    .unwrap_or(false)
+            })
+            .collect()
+    }
+
+    /// Known: see known_findings.d (C08/C19).
+    pub const SIG_SELF_SOURCE: &str = "conflict entry carries the locally added source_uuid=own-uuid marker on some replicas only (validate_repl marks a schema-invalid merge without a change id)";
+
+    pub async fn server_uuids(cl: &Cluster) -> Vec<String> {
+        let mut out = Vec::new();
+        for i in 0..cl.nodes.len() {
+            let now = cl.nodes[i].now();
+            let w = cl.nodes[i].qs.write(now).await.expect("write");
+            out.push(kanidmd_lib::verif_hooks::repl::server_uuid(&w).to_string());
+            drop(w);
+        }
+        out
+    }
+
+    /// Split the differences found by `compare` into (unexplained, description of the explained ones).
+    /// Fingerprint of the known root cause on an (entry, attribute): the two replicas hold different
+    /// change ids and the LOWER one was stamped by a replica that still holds it (after a full mesh a
+    /// replica can only keep its own lower id if it wrote it over a greater one it had received; a refresh
+    /// may have copied that state to further replicas).
+    /// Every difference of an entry that shows the fingerprint on some attribute is attributed to it
+    /// (e.g. the merged entry is schema-invalid elsewhere and parked as a conflict there).
+    pub async fn split_stale_local(cl: &Cluster, dumps: &[Dump], diffs: &[(usize, String)]) -> (Vec<(usize, String)>, Option<String>, Option<String>, Option<String>) {
+        let suuids = server_uuids(cl).await;
+        let stale_local = |i: usize, line: &str| -> bool {
+            let mut it = line.splitn(2, ": ");
+            let (Some(u), Some(rest)) = (it.next(), it.next()) else { return false };
+            let Ok(u) = u.parse::<Uuid>() else { return false };
+            let attr = if let Some(r) = rest.strip_prefix("attr ") {
+                r.split(':').next().unwrap_or("")
+            } else if let Some(r) = rest.strip_prefix("change cid of ") {
+                r.split(':').next().unwrap_or("")
+            } else {
+                return false;
+            };
+            let (Some(a), Some(b)) = (dumps[0].get(&u), dumps[i].get(&u)) else { return false };
+            let (Some(ca), Some(cb)) = (a.changes.get(attr), b.changes.get(attr)) else { return false };
+            if ca == cb {
+                return false;
+            }
+            let lo = if ca < cb { ca } else { cb };
+            // the replica that stamped the lower id still holds it (a refresh may have copied it to others)
+            (0..dumps.len()).any(|k| lo.ends_with(&suuids[k]) && dumps[k].get(&u).and_then(|e| e.changes.get(attr)) == Some(lo))
+        };
+        // second known fingerprint: merging attribute, equal change ids, different content
+        let merging = merging_attrs(cl, dumps).await;
+        let stranded = |i: usize, line: &str| -> bool {
+            let mut it = line.splitn(2, ": ");
+            let (Some(u), Some(rest)) = (it.next(), it.next()) else { return false };
+            let Ok(u) = u.parse::<Uuid>() else { return false };
+            let Some(r) = rest.strip_prefix("attr ") else { return false };
+            let attr = r.split(':').next().unwrap_or("");
+            if !merging.contains(attr) {
+                return false;
+            }
+            let (Some(a), Some(b)) = (dumps[0].get(&u), dumps[i].get(&u)) else { return false };
+            a.changes.get(attr).is_some() && a.changes.get(attr) == b.changes.get(attr)
+        };
+        // third known fingerprint: validate_repl parks a schema-invalid merge as a conflict by adding
+        // class recycled/conflict and source_uuid = the entry's OWN uuid locally, without a change id; the
+        // marker therefore exists only on replicas that went through that path for this entry.
+        let self_source = |i: usize, line: &str| -> bool {
+            let mut it = line.splitn(2, ": ");
+            let (Some(us), Some(rest)) = (it.next(), it.next()) else { return false };
+            let Ok(u) = us.parse::<Uuid>() else { return false };
+            if !rest.starts_with("attr source_uuid:") {
+                return false;
+            }
+            let (Some(a), Some(b)) = (dumps[0].get(&u), dumps[i].get(&u)) else { return false };
+            if a.status != b.status || a.changes.get("source_uuid") != b.changes.get("source_uuid") {
+                return false;
+            }
+            let own = format!("\"{us}\"");
+            let strip = |e: &crate::dump::EntryDump| -> Vec<String> { e.attrs.get("source_uuid").cloned().unwrap_or_default().into_iter().filter(|v| *v != own).collect() };
+            strip(a) == strip(b)
+        };
+        let self_lines: Vec<(usize, String)> = diffs.iter().filter(|(i, l)| self_source(*i, l)).cloned().collect();
+        let stranded_lines: Vec<(usize, String)> = diffs.iter().filter(|(i, l)| stranded(*i, l)).cloned().collect();
+        let tainted: BTreeSet<String> = diffs
+            .iter()
+            .filter(|(i, l)| stale_local(*i, l))
+            .filter_map(|(_, l)| l.split(": ").next().map(|s| s.to_string()))
+            .collect();
+        let unexplained: Vec<(usize, String)> = diffs
+            .iter()
+            .filter(|(_, l)| !tainted.contains(l.split(": ").next().unwrap_or("")))
+            .filter(|x| !stranded_lines.contains(x) && !self_lines.contains(x))
+            .cloned()
+            .collect();
+        let msg = if tainted.is_empty() {
+            None
+        } else {
+            Some(format!(
+                "{} differences on {} entries showing the fingerprint, e.g. {:?}; server uuids {:?}",
+                diffs.iter().filter(|(_, l)| tainted.contains(l.split(": ").next().unwrap_or(""))).count(),
+                tainted.len(),
+                diffs.iter().filter(|(_, l)| tainted.contains(l.split(": ").next().unwrap_or(""))).take(4).collect::<Vec<_>>(),
+                suuids
+            ))
+        };
+        let smsg = if stranded_lines.is_empty() { None } else { Some(format!("{} attribute differences with equal change ids, e.g. {:?}", stranded_lines.len(), stranded_lines.iter().take(2).collect::<Vec<_>>())) };
+        let selfmsg = if self_lines.is_empty() { None } else { Some(format!("{:?}", self_lines.iter().take(2).collect::<Vec<_>>())) };
+        (unexplained, msg, smsg, selfmsg)
     }
 
     pub fn is_refusal(r: &ReplResult) -> bool {
